@@ -183,11 +183,64 @@ def check(ctx):
         ctx.ob("a.readdress", "address-write|%s" % f.name, not bad,
                "the peripheral's address is changed in place without resetting the bring-up state to Offline on every path: " + "; ".join(bad[:2]), f.loc(u["b"], u["i"]))
 
+    check_reset_address(ctx, P)
+    check_watchdog_factors(ctx, P)
+    # replies are attributed to the polled peripheral only if they come from it: the FDL admission filter (C04 c.fdl-admission)
+    from rules import C04
+    rule.import_clauses(ctx, "C04", lambda s_: C04.check_fdl_admission(s_, P), as_clause="a.edges")
     check_fresh_diagnostics(ctx, P)
     # ---------------- b: request kind per state --------------------------------------------------
     check_requests(ctx, P)
     # ---------------- c: Set_Prm / Chk_Cfg layout -------------------------------------------------
     check_layout(ctx, P)
+
+
+def check_reset_address(ctx, P):
+    """a.readdress: Peripheral::reset_address() restarts the bring-up on *every* path (also when the new address equals the old one:
+    the documented purpose is a new parameterisation): each return is preceded by the whole-object replacement."""
+    f = None
+    for g_ in P.crate_fns(CR):
+        if g_.module == "dp::peripheral" and g_.name.endswith("::reset_address"):
+            f = g_
+    if f is None:
+        ctx.notes.append("a.readdress: Peripheral::reset_address not found - not decided")
+        return
+    marks = {}
+    for b, i, s in stmts(f):
+        if "a" in s and mk_place(s["a"]) == (1, (("deref",),)):
+            marks[(b, i)] = "whole"
+    for b, c in call_sites(f):
+        if mk_place(c["dest"]) == (1, (("deref",),)):
+            marks[(b, None)] = "whole"
+    g = GuardAnalysis(f, P, marks=marks)
+    bad = [f.loc(rb) for rb in f.return_blocks for fs in g.at(rb) if 0 in g.count_of(fs, "whole")]
+    ctx.ob("a.readdress", "reset-on-every-path", bool(marks) and not bad,
+           "Peripheral::reset_address can return without re-creating the peripheral (no new bring-up): %s" % sorted(set(bad))[:2], f.loc(0))
+
+
+def check_watchdog_factors(ctx, P):
+    """c.set_prm (watchdog): the two factors written into Set_Prm must not under-run the configured time-out: the second factor is the
+    rounded-up quotient.  Decided only for the recognised shape (quotient of the 10 ms count by the first factor)."""
+    cands = [f for f in P.crate_fns(CR) if f.module == "fdl::parameters" and "watchdog_factors" in f.name]
+    found = False
+    for f in cands:
+        tb = TermBuilder(f, P)
+        for b, c in call_sites(f):
+            cal = c.get("callee") or ""
+            if cal.endswith("::div_ceil"):
+                found = True
+                ctx.ob("c.set_prm", "watchdog-rounds-up", True, "", f.loc(b))
+        for b, i, s in stmts(f):
+            if "a" in s and s["rv"].get("bin") == "Div":
+                a, d = show(tb.joperand(s["rv"]["a"])), show(tb.joperand(s["rv"]["b"]))
+                if d == "10":
+                    continue  # the conversion of the duration into 10 ms units
+                found = True
+                ctx.ob("c.set_prm", "watchdog-rounds-up", False,
+                       "the second watchdog factor is the truncated quotient %s / %s: the watchdog programmed into the peripheral can be shorter than "
+                       "the configured time-out" % (a[:40], d[:20]), f.loc(b, i))
+    if not found:
+        ctx.notes.append("c.set_prm watchdog factors: computation not in the recognised shape - not decided")
 
 
 def check_fresh_diagnostics(ctx, P):
